@@ -1005,7 +1005,8 @@ def WorkerPool_worker : Func := { name := "WorkerPool.worker", recv := "p", para
 B[
   (.forS B[] (.var "true") B[] B[
     (.selectS (Cases.ofList [
-      ((.bin ":=" (.lit "names" E[(.var "task"), (.var "ok")]) (.un "<-" (.sel (.var "p") "tasks"))), B[
+      ((.un "<-" (.sel (.var "p") "tasks")), B[
+        (.define ["task", "ok"] E[(.call "chan:recvd" E[(.sel (.var "p") "tasks")])]),
         (.ifS B[] (.un "!" (.var "ok")) B[
           (.ret E[])] B[]),
         (.expr (.call "task" E[]))]),
